@@ -400,4 +400,85 @@ theorem session_spec (delay : Nat) (steps : List Step) (s : Session) (m : Mach)
     · rw [x2, o4, lastRaised_append, lastRaised_append, lastRaised_of_none s.f _ _ o2]
     · simp [x3]
 
+
+theorem find?_toList_eq_filter {α} (p : α → Bool) : ∀ (l : List α), (l.filter p).length ≤ 1 →
+    (l.find? p).toList = l.filter p
+  | [], _ => rfl
+  | x :: l, h => by
+    cases hx : p x with
+    | false =>
+      have h' : (l.filter p).length ≤ 1 := by simpa [List.filter_cons, hx] using h
+      simp [hx, find?_toList_eq_filter p l h']
+    | true =>
+      have h' : (l.filter p).length = 0 := by
+        simp [hx] at h; simpa using h
+      have : l.filter p = [] := List.length_eq_zero_iff.mp h'
+      simp [hx, this]
+
+theorem filter_rank (mro : List Step) (k : Kind) (r : Nat) (h : ∀ k', (k'.rank == r) = (k' == k)) :
+    mro.filter (fun s => s.kind.rank == r) = mro.filter (fun s => s.kind == k) := by
+  congr 1; funext s; exact h s.kind
+
+/-- **Step order.**  The order in which `Machine.__enter__` visits the classes (three filters over
+    the MRO, with `_connect`, `_init_shell` and `init` resolved in between) is the documented one
+    whenever the class has at most one connector, shell and `init` override. -/
+theorem machSteps_eq_specOrder (mro : List Step)
+    (hc : (mro.filter (fun s => s.kind == .conn)).length ≤ 1)
+    (hs : (mro.filter (fun s => s.kind == .shell)).length ≤ 1)
+    (hh : (mro.filter (fun s => s.kind == .hook)).length ≤ 1) :
+    machSteps mro = specOrder mro := by
+  have hr : List.range 6 = [0, 1, 2, 3, 4, 5] := by decide
+  unfold machSteps specOrder
+  rw [hr, find?_toList_eq_filter _ mro hc, find?_toList_eq_filter _ mro hs, find?_toList_eq_filter _ mro hh]
+  simp only [List.flatMap_cons, List.flatMap_nil, List.append_nil, List.append_assoc]
+  rw [filter_rank mro .pre 0 (by intro k; cases k <;> rfl),
+      filter_rank mro .conn 1 (by intro k; cases k <;> rfl),
+      filter_rank mro .shell 3 (by intro k; cases k <;> rfl),
+      filter_rank mro .post 4 (by intro k; cases k <;> rfl),
+      filter_rank mro .hook 5 (by intro k; cases k <;> rfl)]
+  have h2 : mro.filter (fun s => s.kind.rank == 2) = mro.filter (fun s => s.kind == .init || s.kind == .power) := by
+    congr 1; funext s; cases s.kind <;> rfl
+  rw [h2]
+
+theorem mroFrom_filter_length (k : Kind) : ∀ (ks : List Kind) (i : Nat),
+    ((mroFrom i ks).filter (fun s => s.kind == k)).length = ks.count k
+  | [], _ => rfl
+  | k' :: ks, i => by
+    simp only [mroFrom, List.filter_cons, List.count_cons]
+    by_cases h : k' = k
+    · subst h; simp [mroFrom_filter_length k' ks (i + 1)]
+    · have : (k' == k) = false := by simpa using h
+      simp [this, mroFrom_filter_length k ks (i + 1)]
+
+theorem runSessions_spec (delay : Nat) (steps : List Step) : ∀ (ss : List Session) (m : Mach), m.rc = 0 →
+    (∀ s ∈ ss, balanced s.body 0 = true) →
+    specSessions steps ss (runSessions delay steps ss m) = true
+  | [], _, _, _ => rfl
+  | s :: ss, m, h, hb => by
+    obtain ⟨a, b, c, d, _⟩ := session_spec delay steps s m h (hb s (by simp))
+    unfold runSessions
+    simp only [specSessions, specSession, Bool.and_eq_true, beq_iff_eq]
+    refine ⟨⟨⟨a, b⟩, c⟩, runSessions_spec delay steps ss _ d (fun s' hs' => hb s' (by simp [hs']))⟩
+
+/-- **C13.**  For every well-formed case — every composition, every fault assignment of every
+    session, every balanced nesting history — the model's observation satisfies the specification,
+    including the fresh fault-free entry after the last session. -/
+theorem run_spec (c : Case) (h : c.wf = true) : Spec.C13 c (run c) = true := by
+  unfold Spec.C13
+  rw [h, Bool.true_and]
+  simp only [Case.wf, Bool.and_eq_true, beq_iff_eq, decide_eq_true_eq, List.all_eq_true] at h
+  obtain ⟨⟨⟨⟨hc, hs⟩, _⟩, hh⟩, hb⟩ := h
+  unfold run
+  rw [machSteps_eq_specOrder c.mro
+    (by unfold Case.mro; rw [mroFrom_filter_length]; omega)
+    (by unfold Case.mro; rw [mroFrom_filter_length]; omega)
+    (by unfold Case.mro; rw [mroFrom_filter_length]; omega)]
+  apply runSessions_spec _ _ _ _ rfl
+  intro s hs'
+  rcases List.mem_append.mp hs' with hs' | hs'
+  · exact hb s hs'
+  · simp only [List.mem_singleton] at hs'
+    subst hs'
+    rfl
+
 end C13
